@@ -21,8 +21,8 @@ PLAN = {'quick': [('metric', 3000), ('adhist', 6000), ('adsim', 1500)],
         'thorough': [('metric', 400000), ('adhist', 1000000), ('adsim', 300000)]}
 TIMEOUT = {'quick': 900, 'thorough': 6 * 3600}
 RULE = ('metric: generated models with 1-3 scalar/vector summaries and an elfi.Distance node '
-        '(euclidean, cityblock, chebyshev, sqeuclidean, minkowski p, seuclidean V, mahalanobis '
-        'VI), batch_size 1..12, evaluated on every batch consumed by a simulated Rejection run '
+        '(euclidean, cityblock, chebyshev, sqeuclidean, minkowski p, canberra - each with or '
+        'without per-column weights w -, braycurtis, seuclidean V, mahalanobis VI), batch_size 1..12, evaluated on every batch consumed by a simulated Rejection run '
         'and on generate(with_values=...) calls, against the scipy pairwise function applied '
         'row by row. adhist: a data set (1-3 summaries of width 1-3, 4-40 rows) fed to '
         'AdaptiveDistance.add_data under a tape-chosen partition into calls (single rows '
@@ -47,11 +47,13 @@ ASSUMPTIONS = [
 ]
 
 PAIRWISE = {
-    'euclidean': lambda u, v, kw: ssd.euclidean(u, v),
-    'cityblock': lambda u, v, kw: ssd.cityblock(u, v),
-    'chebyshev': lambda u, v, kw: ssd.chebyshev(u, v),
-    'sqeuclidean': lambda u, v, kw: ssd.sqeuclidean(u, v),
-    'minkowski': lambda u, v, kw: ssd.minkowski(u, v, kw['p']),
+    'euclidean': lambda u, v, kw: ssd.euclidean(u, v, kw.get('w')),
+    'cityblock': lambda u, v, kw: ssd.cityblock(u, v, kw.get('w')),
+    'chebyshev': lambda u, v, kw: ssd.chebyshev(u, v, kw.get('w')),
+    'sqeuclidean': lambda u, v, kw: ssd.sqeuclidean(u, v, kw.get('w')),
+    'minkowski': lambda u, v, kw: ssd.minkowski(u, v, kw['p'], kw.get('w')),
+    'canberra': lambda u, v, kw: ssd.canberra(u, v, kw.get('w')),
+    'braycurtis': lambda u, v, kw: ssd.braycurtis(u, v),
     'seuclidean': lambda u, v, kw: ssd.seuclidean(u, v, kw['V']),
     'mahalanobis': lambda u, v, kw: ssd.mahalanobis(u, v, kw['VI']),
 }
